@@ -7,6 +7,7 @@
 package main
 
 import (
+	"math"
 	"regexp"
 	"strconv"
 	"strings"
@@ -205,8 +206,8 @@ func runTx(prop string, args []string) {
 							limMax = half
 						}
 						// keep limits off the grid so that no comparison is within rounding distance
-						if x := limMax * catchVarScale[limVar]; x == float64(int64(x)) {
-							limMax += half / 2
+						if x := limMax * catchVarScale[limVar]; math.Abs(x-math.Round(x)) < 0.25 {
+							limMax = (math.Round(x) + 0.5) / catchVarScale[limVar]
 						}
 						prm = parameters.Map{catchLimitKeys[limVar]: limMax}
 						limit = J{"var": limVar, "max": flOf(limMax)}
